@@ -31,6 +31,8 @@ DOT_DOCS = [
     ("multiline", "First line...\nsecond line ... third\n...fourth line starts with dots. End...\n"),
     ("emphasis", "Some **bold...** and *...italic* and ~~strike...~~ here.. and . . . spaced.\n"),
     ("numbers", "Version 1...2 and 3... 4 and a...\n\n1. item...\n2. next ...\n"),
+    ("multiline_tags", "A {# todo: fix this...\nlater #} b... and {% tag a=\"x...\"\n   b=1 %} text... then {{ v...\n|f }} end.\n\n- item {# in...\n  list #} more...\n"),
+    ("tag_after_break", "line one...\n{% t x=\"...\" %} line two...\nline three {# c... #}\n"),
 ]
 
 
